@@ -7,16 +7,27 @@ From RM Require Import Gen.Generated.
 Definition colon : char := 58.
 Definition comma : char := 44.
 
+(* str::split_once(c): text before and after the FIRST occurrence of c *)
+Fixpoint split_once (d : char) (s : str) : option (str * str) :=
+  match s with
+  | [] => None
+  | c :: r =>
+      if c =? d then Some ([], r)
+      else match split_once d r with
+           | Some (a, b) => Some (c :: a, b)
+           | None => None
+           end
+  end.
+
 (* KeyValue::parse:
-     let mut split = s.split(':').map(str::trim);
-     key:   split.next().unwrap_or(s.trim()).parse()?     (K::from_str)
-     value: split.next().unwrap_or_default()
-   i.e. the line is cut at EVERY colon, the first piece is the key and the
-   SECOND piece is the value; later pieces are dropped. *)
+     let (key, value) = s.split_once(':').unwrap_or((s, ""));
+     key:   key.trim().parse()?       (K::from_str)
+     value: value.trim()
+   i.e. the line is cut at the first colon only; without a colon the whole
+   line is the key and the value is empty. *)
 Definition kv_pieces (s : str) : str * str :=
-  let '(k, rest) := next (map trim (split_on colon s)) in
-  let '(v, _) := next rest in
-  (odflt (trim s) k, odflt [] v).
+  let '(key, value) := odflt (s, []) (split_once colon s) in
+  (trim key, trim value).
 
 Definition kv_parse {K : Type} (from_str : str -> option K) (s : str) : option (K * str) :=
   let '(k, v) := kv_pieces s in
